@@ -34,6 +34,7 @@ func runC01(c *Check) {
 	c04PublishCopies(c, P, g)
 	c04NoSharedWrites(c, P+".O4", g)
 	gcSafety(c, P, g)
+	c11PersistBeforeSend(c, P+".S", g, c11PublishSection(c, P+".S", g))
 	c07Decorator(c, P+".S")
 	// every hop hands a Copy() to the next stage: it must be a complete message (own, non-nil metadata; same UUID, payload, entries)
 	c16Copy(c, P+".O4")
